@@ -72,9 +72,15 @@ Entity(s, lo, hi) ==     \* resolve_xml_entity on s[lo..hi): replacement byte or
 RECURSIVE FindAmpSemi(_, _, _)
 FindAmpSemi(s, p, n) == IF p >= n \/ At(s, p) = AMP \/ At(s, p) = SEMI THEN Min2(p, n) ELSE FindAmpSemi(s, p + 1, n)
 
-\* unescape: [ok, out, e]
-RECURSIVE UnescFrom(_, _)
-UnescFrom(s, p) ==
+\* unescape_with(raw, resolver): [ok, out, e].  Named references are looked up with `ent` (a function from the name's
+\* byte span to the replacement bytes, <<>> = unknown); numeric references never reach the resolver; the replacement is not
+\* scanned again.  unescape = unescape_with(resolve_predefined_entity).
+PredefEnt(s, lo, hi) == LET x == Entity(s, lo, hi) IN IF x < 0 THEN <<>> ELSE <<x>>
+\* the custom resolver used by the conformance harness: predefined entities plus  a -> "A;&"  (a replacement that looks like markup)
+CustomEnt(s, lo, hi) == IF Slice(s, lo, hi) = <<97>> THEN <<65, 59, 38>> ELSE PredefEnt(s, lo, hi)
+EntOf(ent, s, lo, hi) == IF ent = "custom" THEN CustomEnt(s, lo, hi) ELSE PredefEnt(s, lo, hi)
+RECURSIVE UnescFromE(_, _, _)
+UnescFromE(s, p, ent) ==
     LET n == Len(s)
         a == FindByte(s, p, n, AMP) IN
     IF a >= n THEN [ok |-> TRUE, out |-> Slice(s, p, n), e |-> ""]
@@ -82,13 +88,15 @@ UnescFrom(s, p) ==
          IF t >= n \/ At(s, t) # SEMI THEN [ok |-> FALSE, out |-> <<>>, e |-> "UnterminatedEntity"]
          ELSE LET rep == IF t > a + 1 /\ At(s, a + 1) = HASH
                          THEN LET c == CharRef(s, a + 2, t) IN IF c < 0 THEN <<>> ELSE Utf8(c)
-                         ELSE LET x == Entity(s, a + 1, t) IN IF x < 0 THEN <<>> ELSE <<x>>
+                         ELSE EntOf(ent, s, a + 1, t)
                   bad == rep = <<>> IN
               IF bad THEN [ok |-> FALSE, out |-> <<>>,
                            e |-> IF t > a + 1 /\ At(s, a + 1) = HASH THEN "InvalidCharRef" ELSE "UnrecognizedEntity"]
-              ELSE LET r == UnescFrom(s, t + 1) IN
+              ELSE LET r == UnescFromE(s, t + 1, ent) IN
                    IF r.ok THEN [ok |-> TRUE, out |-> Slice(s, p, a) \o rep \o r.out, e |-> ""] ELSE r
+UnescFrom(s, p) == UnescFromE(s, p, "predef")
 Unesc(s) == UnescFrom(s, 0)
+UnescCustom(s) == UnescFromE(s, 0, "custom")
 
 HasAmp(s) == \E i \in 1..Len(s) : s[i] = AMP
 
